@@ -370,6 +370,35 @@ func (e *Engine) Run() (err error) {
 	}
 	st.old = st.snapshot()
 	st.old.pc = nil
+	// exported postconditions must make sense at call sites: only parameters, results and heap
+	if u.C != nil && !strings.Contains(u.C.Key, "@") && u.C.Opts["exported"] == "check" {
+		for _, cl := range u.C.Ensures {
+			if strings.HasPrefix(cl.Label, "local-") {
+				continue
+			}
+			var bad string
+			func() {
+				defer func() {
+					if r := recover(); r != nil {
+						if tl, ok := r.(toolLimit); ok {
+							bad = tl.msg
+							return
+						}
+						panic(r)
+					}
+				}()
+				tmp := st.clone()
+				cenv := &Env{e: e, st: tmp, fr: tmp.top(), old: tmp, params: fr.params, bound: map[string]Val{}, pkg: u.C.Pkg, contract: u.C, callee: true, inEnsures: true}
+				for _, t := range resultTypes(fn.Signature) {
+					cenv.results = append(cenv.results, e.freshOf(tmp, "probe", t))
+				}
+				e.evalSpec(tmp, cenv, cl.E)
+			}()
+			if bad != "" {
+				limitf("contract does not bind: exported clause %q of %s mentions state a caller cannot see (%s); label it local-", cl.Label, u.C.Key, bad)
+			}
+		}
+	}
 	// vacuity: the precondition must be satisfiable
 	e.addCover(st, e.oblPrefix(fn)+".vacuity.requires", "requires satisfiable")
 	fr.k = func(st2 *State, results []Val) { e.checkReturn(st2, fr.fn, u.C, results) }
